@@ -400,6 +400,85 @@ fn capability_changes(rep: &mut Report, only: Option<u64>) {
     }
 }
 
+/// Requests as they arrive over the wire: CBOR whose options map leaves members out. An option that is
+/// not named has its specified default (up = true): presence is required although nobody spelled it out.
+fn decoded_requests(rep: &mut Report, only: Option<u64>) {
+    fn strip(bytes: &[u8], key: i128, keep: &[&str]) -> Vec<u8> {
+        let mut v: ciborium::Value = ciborium::de::from_reader(bytes).expect("parse request");
+        if let ciborium::Value::Map(m) = &mut v {
+            for (k, val) in m.iter_mut() {
+                if k.as_integer().map(i128::from) == Some(key) {
+                    if let ciborium::Value::Map(o) = val {
+                        o.retain(|(n, _)| n.as_text().map_or(false, |t| keep.contains(&t)));
+                    }
+                }
+            }
+        }
+        let mut out = Vec::new();
+        ciborium::ser::into_writer(&v, &mut out).expect("serialise");
+        out
+    }
+    let mut index = 70_000u64;
+    for make in [true, false] {
+        for keep in [&[][..], &["uv"][..], &["rk"][..], &["rk", "uv"][..]] {
+            for (present, verified) in [(false, false), (false, true), (true, false), (true, true)] {
+                index += 1;
+                if only.map_or(false, |o| o != index) {
+                    continue;
+                }
+                rep.eval();
+                let cj = json!({"index": index, "level": "ctap", "part": "request decoded from CBOR, options map names only some members", "op": if make {"make_credential"} else {"get_assertion"},
+                    "options_members_on_the_wire": keep, "reported_presence": present, "reported_verification": verified});
+                rep.nontrivial(fnv_str(&cj.to_string()));
+                let mut rng = Rng::derive(7, "c04dec", index);
+                let rig = Rig::new(Disc::Full, UvOutcome::Check { presence: present, verification: verified }, Some(true));
+                let (a, _, _) = seeded_passkey(&mut rng, RP, &[0xA0; 16], Some(b"user"), Some(3), None);
+                rig.store.insert_raw(a);
+                let before = rig.store.snapshot();
+                let mut auth = rig.auth(AuthCfg { counters: true, ..Default::default() });
+                let mut bytes = Vec::new();
+                let res: Result<Result<Vec<u8>, u8>, (String, String)> = if make {
+                    ciborium::ser::into_writer(&mc_request(RP, b"new-user", &[1u8; 32], vec![pk_param(coset::iana::Algorithm::ES256)], None, None, false, true, false), &mut bytes).expect("serialise");
+                    let wire = strip(&bytes, 7, keep);
+                    catch(|| {
+                        let req: passkey_types::ctap2::make_credential::Request = ciborium::de::from_reader(wire.as_slice()).expect("request with a partial options map decodes");
+                        block_on(auth.make_credential(req)).map(|r| r.auth_data.to_vec()).map_err(|e| status_byte_ref(&e))
+                    })
+                } else {
+                    ciborium::ser::into_writer(&ga_request(RP, &[2u8; 32], Some(vec![descriptor(&[0xA0; 16])]), None, true, false), &mut bytes).expect("serialise");
+                    let wire = strip(&bytes, 5, keep);
+                    catch(|| {
+                        let req: passkey_types::ctap2::get_assertion::Request = ciborium::de::from_reader(wire.as_slice()).expect("request with a partial options map decodes");
+                        block_on(auth.get_assertion(req)).map(|r| r.auth_data.to_vec()).map_err(|e| status_byte_ref(&e))
+                    })
+                };
+                let changed = rig.store.snapshot() != before;
+                match res {
+                    Err((sig, d)) => rep.violate(&format!("ctap: ceremony {sig}"), d, cj),
+                    Ok(Ok(ad)) => {
+                        rep.count("decoded_requests_succeeded");
+                        // rk=true on make is not in the wire map unless kept, uv unnamed = false: the only consent needed is presence
+                        if !present {
+                            rep.violate("ctap: ceremony succeeded although consent is missing (presence required by default but not reported)", String::new(), cj.clone());
+                        }
+                        if let Ok(d) = authdata::decode(&ad) {
+                            if (d.flags & authdata::UP != 0) != present || (d.flags & authdata::UV != 0) != verified {
+                                rep.violate("ctap: UP/UV flags differ from what the user-validation step reported", format!("flags {:#04x}, reported presence={present} verification={verified}", d.flags), cj.clone());
+                            }
+                        }
+                    }
+                    Ok(Err(_)) => {
+                        rep.count("decoded_requests_refused");
+                        if changed {
+                            rep.violate("ctap: store changed although the ceremony was refused", String::new(), cj.clone());
+                        }
+                    }
+                }
+            }
+        }
+    }
+}
+
 fn run_client(rep: &mut Report, index: u64, register: bool, uvr: UserVerificationRequirement, ver_cap: Option<bool>, outcome: UvOutcome, store: StoreContent, outcomes: &mut HashMap<String, Vec<(StoreContent, bool, Option<u8>)>>) {
     rep.eval();
     let cj = json!({"index": index, "level": "client", "op": if register {"register"} else {"authenticate"}, "userVerification": format!("{uvr:?}"),
@@ -456,7 +535,7 @@ pub fn run(args: &Args) -> Report {
         "C04",
         &args.tier,
         args.seed,
-        "complete product operation x rk x up x uv x verification capability x presence capability x user-validation outcome (4 reports + 2 errors) x pin-auth x store content (no / one / two matching credentials, exclude-list hit or miss; for assertions: no allow list / naming a held id / naming an unknown id) at CTAP level, plus 36 assertion cases in which another credential of the RP arrives in the store while the user is being asked, plus 36 pairs of ceremonies on one authenticator between which the verification capability report changes, plus userVerification x capability x outcome x store content at client level; distinct by the tuple; every tuple is non-trivial (finite product)",
+        "complete product operation x rk x up x uv x verification capability x presence capability x user-validation outcome (4 reports + 2 errors) x pin-auth x store content (no / one / two matching credentials, exclude-list hit or miss; for assertions: no allow list / naming a held id / naming an unknown id) at CTAP level, plus 36 assertion cases in which another credential of the RP arrives in the store while the user is being asked, plus 36 pairs of ceremonies on one authenticator between which the verification capability report changes, plus 32 requests decoded from CBOR whose options map names only some members, plus userVerification x capability x outcome x store content at client level; distinct by the tuple; every tuple is non-trivial (finite product)",
     );
     rep.exhaustive = true;
     let only = replay_index(args);
@@ -497,6 +576,9 @@ pub fn run(args: &Args) -> Report {
     }
     if only.map_or(true, |o| (60_000..70_000).contains(&o)) {
         capability_changes(&mut rep, only);
+    }
+    if only.map_or(true, |o| (70_000..80_000).contains(&o)) {
+        decoded_requests(&mut rep, only);
     }
     // (I4) while consent is missing the outcome does not depend on the store content
     for (group, v) in &outcomes {
